@@ -149,7 +149,7 @@ def parseStatus (ty : WlType) (raw : WlStatus) : Option WlStatus :=
   | .cloneSet => some raw
   | .nativeSts | .advSts => some { raw with updatedReady := 0 }
   | .daemonSet => some { raw with updatedReady := 0, stableRevision := "" }
-  | .unstructured _ => some raw
+  | .unstructured _ => some raw   -- a revision field of another JSON type reads as "" (parseStatusStringFromUnstructured)
   | .replicaSet => none     -- panic("unsupported workload type")
 
 /-- a workload object in an event -/
